@@ -86,6 +86,16 @@ class _GPR(_S):
         self.genes = frozenset(genes)
         self.body = tuple(sorted(genes))
 
+    def __str__(self):
+        return " and ".join(sorted(self.genes))
+
+    def to_string(self, names=None):
+        return str(self)
+
+    @classmethod
+    def from_string(cls, text):
+        return cls(t for t in text.split(" and ") if t)
+
     def __copy__(self):
         return _GPR(self.genes)
 
@@ -189,7 +199,15 @@ def build_classes(prog):
         def __repr__(self):
             return f"<{self._real} {self.__dict__.get('_id')}>"
 
+        # (interpreter, lookup of the real method by class and name): when set, pickling / deep copying of a stand-in runs
+        # the package's own __getstate__ / __setstate__ through the interpreter instead of the transcription below
+        protocol = None
+
         def __getstate__(self):
+            if Obj.protocol is not None:
+                it_, method = Obj.protocol
+                fn = method(self._real, "__getstate__")
+                return it_.call(fn, [], {}, selfobj=self) if fn is not None else dict(self.__dict__)
             # as Object/Species.__getstate__: no model pointer, no back-references in a pickled / deep-copied state
             state = dict(self.__dict__)
             if "_model" in state and self._real != "Model":
@@ -199,6 +217,12 @@ def build_classes(prog):
             return state
 
         def __setstate__(self, state):
+            if Obj.protocol is not None:
+                it_, method = Obj.protocol
+                fn = method(self._real, "__setstate__")
+                if fn is not None:
+                    it_.call(fn, [state], {}, selfobj=self)
+                    return
             self.__dict__.update(state)
 
         def _aware(self, what):
@@ -310,6 +334,11 @@ def build_classes(prog):
         @property
         def compartments(self):
             return dict(self._compartments)
+
+        @compartments.setter
+        def compartments(self, value):
+            # as the real setter: the descriptions are merged into the dictionary the model already has
+            self._compartments.update(value)
 
         @property
         def problem(self):
